@@ -19,4 +19,8 @@ def jobs(tier):
     for t, m, b in [(1, 0, 0), (2, 1, 0), (3, 2, 0), (2, 2, 0), (2, 3, 4), (3, 3, 4)] + ([(3, 4, 4), (2, 3, 16)] if tier == 'thorough' else []):
         out.append(Job('reject-t%d-m%d-b%d' % (t, m, b), 'shamir.cpp', 'h_c10_reject', [t, m, b], reach=['refused-or-flagged'], enum_cap=256,
                        bounds='threshold %d, %d shares, symbolic indices%s' % (t, m, (' < %d' % b) if b else ' (all 256 values)')))
+    # secrecy (necessary condition): t-1 shares must not determine the secret for every value of the randomness
+    for t in ((2, 6) if tier == 'quick' else (2, 3, 4, 6, 8)):
+        out.append(Job('secrecy-t%d' % t, 'shamir.cpp', 'h_c10_secrecy', [t], reach=['split'], must_reach={'fewer-shares-miss-the-secret': 'C10: fewer than the threshold of shares always determine the secret byte (the polynomial never has its full degree)'},
+                       timeout=1500, bounds='threshold %d = share count, the first two draws of the random device symbolic (every octet 0 or 1), later draws fixed' % t))
     return out
